@@ -588,7 +588,7 @@ async def exec_step(env, ctx, step):
                 for rec in state.by_due.get(loop.time, ()):
                     if rec[2] is None or not rec[0] or rec[0] > mark or rec[2] is me:
                         continue
-                    if rec[3] is not None and rec[3]._revoked:
+                    if rec[3] is not None and getattr(rec[3], '_revoked', False):
                         continue
                     if rec[1] != loop.time:
                         continue
